@@ -14,18 +14,32 @@ def run(rep, tier):
     rep.rule("R-CPLX-ALGEBRA", "every (re, im) pair computed in lu_decomp_complex / lin_solve_complex is the exact complex product (or conj/|.|^2 quotient) of its operand pairs; the purely-real / purely-imaginary special cases are specialisations of the general formula")
     rep.rule("R-SOLVE-READONLY", "lin_solve{,_complex} take the factors and pivots by shared reference to a Freeze type and contain no unsafe: only the right-hand side changes")
     rep.rule("R-LU-CHECKED", "every factorisation call site in the solvers inspects the Result and the Err edge leaves the iteration")
+    rep.rule("R-LU-SOLVE", "factorise-then-solve returns the solution: lu_decomp + lin_solve (n <= 3) and the complex pair (n <= 2) are evaluated exactly on symbolic matrices for every enumerated pattern of exact zeros and "
+                           "every outcome of the ordering tests; A*x - b == 0 is decided as an identity of rational functions in the symbols")
+    linalg.r_lu_solve(rep, f, thorough=(tier == "thorough"))
+    solved = {x[1] for x in rep.discharged if x[0] == "R-LU-SOLVE"}
+    piv = linalg.r_pivot_semantic(rep, f)
+    # the rules below read the code by its shape; where a semantic rule has decided the same obligation in this run, a shape
+    # they do not recognise is a note, not an INCONCLUSIVE
+    covered = {}
+    if "R-LU-SOLVE:lu_decomp+lin_solve" in solved and "R-LU-SOLVE:lu_decomp_complex+lin_solve_complex" in solved:
+        why = "covered by R-LU-SOLVE (decided): a wrong sign convention, interchange order, skipped update or complex product breaks A*x = b"
+        covered.update({"R-MULT-SIGN": why, "R-LU-INTERLEAVE": why, "R-ZERO-SKIP": why, "R-CPLX-ALGEBRA": why})
+    if piv.get("lu_decomp") and piv.get("lu_decomp_complex"):
+        covered["R-PIVOT-ARGMAX"] = "covered by R-PIVOT-ARGMAX:semantic (decided)"
+    soft = linalg.SoftRep(rep, covered)
     linalg.r_lu_errs(rep, f)
     linalg.r_lu_siblings(rep, f)
-    linalg.r_pivot_argmax(rep, f)
-    linalg.r_mult_sign(rep, f)
+    linalg.r_pivot_argmax(soft, f)
+    linalg.r_mult_sign(soft, f)
     rep.rule("R-LU-INTERLEAVE", "writer/reader agreement on row interchanges: the factorisation swaps only columns >= k (deferred interchanges), so every pivot read in a solve sits in the elimination loop over k and precedes the update of column k")
-    linalg.r_lu_interleave(rep, f)
-    linalg.r_cplx_algebra(rep, f)
+    linalg.r_lu_interleave(soft, f)
+    linalg.r_cplx_algebra(soft, f)
     rep.rule("R-CPLX-MODULUS", "every |re| + |im| magnitude in the complex factorisation pairs the real and the imaginary matrix at the same entry")
     linalg.r_cplx_modulus(rep, f)
     rep.rule("R-ZERO-SKIP", "work skipped because a multiplier tests as zero is a no-op: with the tested quantities set to 0 every skipped update vanishes (a complex value is zero only when both parts are)")
-    linalg.r_zero_skip(rep, f)
+    linalg.r_zero_skip(soft, f)
     linalg.r_solve_readonly(rep, f)
     linalg.r_lu_checked(rep, f)
     rep.explanation = ("Decides the error discipline, the pivoting idiom, the sign convention shared by factorisation and solves, and read-only-ness of the factors. "
-                       "NOT decided: backward stability / the residual bound and correctness of the elimination as arithmetic on run-time matrices (that needs symbolic execution over pivot branches - a different technique family).")
+                       "R-LU-SOLVE decides A*x = b for all data at the enumerated sizes / zero patterns (exact interpretation of the source with symbols, every ordering outcome enumerated). NOT decided: backward stability / the residual bound in floating point, sizes beyond those enumerated.")
